@@ -407,4 +407,5 @@ def opt_shards(tier):
 
 
 def replay(case):
-    return check_case(case)[0]
+    with core.istate(case["kind"] + str(case.get("size", ""))):       # the same interpreter state as in the exploration
+        return check_case(case)[0]
